@@ -7,7 +7,7 @@ use crate::step::*;
 use crate::world::World;
 
 pub const EL_NAMES: &[&str] = &["a", "b", "c", "p:d", "q:e", "f"];
-pub const ATTR_NAMES: &[&str] = &["x", "y", "z", "p:w", "id", "xml:lang", "dflt", "fx", "q:w", "q:x"];
+pub const ATTR_NAMES: &[&str] = &["x", "y", "z", "p:w", "id", "xml:lang", "dflt", "fx", "q:w", "q:x", "p", "q"];
 pub const BAD_NAMES: &[&str] = &["1a", "a b", "a<", "", " ", "a&b", "a x='1'", "x>y", "-a", "a/"];
 pub const ODD_NAMES: &[&str] = &["a:b:c", "zz:a", ":a", "a:"];
 pub const PI_TARGETS: &[&str] = &["t", "u", "pi-x", "x", "xm", "X", "xmlx"];
